@@ -1,5 +1,6 @@
 import Xp.Base.JsonIO
 import Xp.Model.C07
+import Xp.Model.C07World
 namespace Xp.C07
 open Lean (Json)
 open Xp.IOx
@@ -59,7 +60,35 @@ def opOf (j : Json) : Option Op :=
   | "editClaim" => some (.editClaim (deltaOf j))
   | "xrCtl" => some (.xrCtl (deltaOf j))
   | "upgrade" => some .upgrade
+  -- the upgrader against a throw-away probe object: nothing of the pair changes
+  | "upgradeProbe" => some .upgrade
   | _ => none
+
+/-- the world of one sync as the scenario states it -/
+structure View where
+  lagCm : Nat := 0
+  lagXr : Nat := 0
+  missXr : Bool := false
+
+def actOf (target : String) (j : Json) : Option Act :=
+  match str j "act" with
+  | "editClaim" => some (.editClaim (deltaOf j))
+  | "xrCtl" => some (.xrCtl (deltaOf j))
+  | "deleteXR" => some .deleteXR
+  | "createXR" => some (.createXR { kobjOf (obj j "xr") with name := target })
+  | _ => none
+
+def worldOf (target : String) (j : Json) : World :=
+  let acts := (arr j "acts").filterMap fun a => (actOf target a).map fun x => (nat a "k", x)
+  let inj := (arr j "inj").map fun a => (nat a "k", str a "class")
+  { acts := fun k => (acts.filter fun p => p.1 == k).map (·.2)
+    inj := fun k => (inj.find? fun p => p.1 == k).map (·.2)
+    getLive := !(bool j "getCache") }
+
+def viewOf (j : Json) : View := { lagCm := nat j "lagCm", lagXr := nat j "lagXr", missXr := bool j "missXr" }
+
+def isQuietJ (j : Json) : Bool :=
+  (arr j "acts").isEmpty && (arr j "inj").isEmpty && nat j "lagCm" == 0 && nat j "lagXr" == 0 && !(bool j "missXr")
 
 def cfg : Cfg := { claimAPIVersion := "example.org/v1", claimKind := "Thing", claimNS := "team-a",
                    xrAPIVersion := "example.org/v1", xrKind := "XThing" }
@@ -124,31 +153,67 @@ def checkStep (ssa : Bool) (pre : St) (o : Out) : String :=
       !(k == "compositionRevisionRef" && !ssa && policyOf (xrSpecFields o.st.xr) == some "Automatic")) then "C07:claim-spec-changed"
   else ""
 
-def runAll (s : St) : List Op → List Json → String → List Json × String
+/-- the state `lag` operations ago (`hist`: most recent first, never empty) -/
+def back (hist : List Srv) (lag : Nat) : Srv :=
+  match hist.drop (min lag (hist.length - 1)) with
+  | s :: _ => s
+  | [] => default
+
+/-- One sync in its world. `hist` = the states after every earlier operation of the pair. -/
+def syncW (cfg : Cfg) (ssa : Bool) (gen : String) (j : Json) (hist : List Srv) : OutW :=
+  let s := back hist 0
+  let v := viewOf j
+  let target := match refName s.cm.specFields with
+    | some n => if n == "" then gen else n
+    | none => gen
+  let w := worldOf target j
+  let sc := back hist v.lagCm
+  let rcm := sc.cm
+  let sx := back hist v.lagXr
+  let rxr : Option (KObj × Nat) :=
+    if v.missXr then none else
+    match refName rcm.specFields, sx.xr with
+    | some n, some x => if x.name == n then some (x, sx.xrV) else none
+    | _, _ => none
+  let o := if ssa then syncSSAW cfg gen w rcm sc.cmV (rxr.map (·.1)) s
+    else syncCSAW cfg gen w rcm sc.cmV (rxr.map (·.1)) ((rxr.map (·.2)).getD 0) s
+  { o with srv := normalizeW (pruneNullsW o.srv) }
+
+def genOf : Op → String
+  | .syncSSA g => g
+  | .syncCSA g => g
+  | _ => ""
+
+def runAll (cfg : Cfg) (hist : List Srv) : List (Op × Json) → List Json → String → List Json × String
   | [], acc, why => (acc.reverse, why)
-  | op :: rest, acc, why =>
-    let o := step cfg s op
+  | (op, oj) :: rest, acc, why =>
+    let s := back hist 0
     if isSync op then
-      let j := Json.mkObj [("err", .str o.err), ("writes", Json.arr (o.writes.map writeJson).toArray),
-        ("claim", kobjJson o.st.cm),
-        ("xr", match o.st.xr with | some x => kobjJson x | none => Json.null)]
-      let w := if why == "" then checkStep (isSSA op) s o else why
-      runAll o.st rest (j :: acc) w
-    else runAll o.st rest acc why
+      let o := syncW cfg (isSSA op) (genOf op) oj hist
+      let j := Json.mkObj [("err", .str o.err), ("calls", Json.num o.calls), ("writes", Json.arr (o.writes.map writeJson).toArray),
+        ("claim", kobjJson o.srv.cm),
+        ("xr", match o.srv.xr with | some x => kobjJson x | none => Json.null)]
+      -- the model-side verdict is evaluated for syncs in the quiet world
+      let w := if why == "" && isQuietJ oj then
+          checkStep (isSSA op) s.toSt { st := o.srv.toSt, writes := o.writes, err := o.err } else why
+      runAll cfg (o.srv :: hist) rest (j :: acc) w
+    else runAll cfg (stepEnvW s op :: hist) rest acc why
 
 /-- One claim/XR pair with its history, run on its own: the model of a sync is a
 function of that pair's state only. -/
 def runPair (j : Json) : Except String (List Json × String) :=
   let cm := kobjOf (obj j "claim")
   let xr := if has j "xr" then some (kobjOf (obj j "xr")) else none
-  let ops := (arr j "ops").filterMap opOf
+  let ops := (arr j "ops").filterMap fun o => (opOf o).map fun x => (x, o)
   if ops.length != (arr j "ops").length then .error "unknown op" else
   -- domain of the model: an existing XR is the one the claim's resourceRef names
   let okDom := match xr with
     | some x => refName cm.specFields == some x.name
     | none => true
   if !okDom then .error "claim does not reference the stored XR" else
-  .ok (runAll { cm := cm, xr := xr, prev := none } ops [] "")
+  -- the claim's namespace (same-named claims of two namespaces are different claims)
+  let c := if str j "ns" == "" then cfg else { cfg with claimNS := str j "ns" }
+  .ok (runAll c [{ cm := cm, xr := xr, prev := none }] ops [] "")
 
 def runPeers : List Json → List Json → String → Except String (List Json × String)
   | [], acc, why => .ok (acc.reverse, why)
